@@ -61,7 +61,7 @@ def goal(rng):
 
 def generate(ctx):
     rng = ctx.rng
-    n = ctx.scaled({"quick": 1200, "thorough": 120000}[ctx.tier])
+    n = ctx.scaled({"quick": 1200, "thorough": 60000}[ctx.tier])
     for i in range(n):
         kind = ["goodman", "five", "goodman", "five", "matrix"][i % 5]
         c = {"kind": kind, "rseed": int(rng.integers(0, 2**31)), "R1": goal(rng), "R2": goal(rng)}
